@@ -62,6 +62,8 @@ type RefServer struct {
 	deaf      bool        // ... and does not read either: what the client writes piles up in the transport
 	tlsStarted bool
 	tx         int // mail transaction state for the strict default replies (see track)
+	resetAfter int // > 0: reset the connection once this many bytes of content (minus one) have arrived
+	reset      bool
 	tlsServing bool       // replies now travel inside TLS
 	tlsDone   chan struct{}
 	TLSState  *tls.ConnectionState // server side view of the established TLS connection
@@ -145,6 +147,14 @@ func (s *RefServer) respond(verb string) int {
 		s.sendReply(a.Code, a.Text)
 		s.track(verb, a.Code)
 		return a.Code
+	case "reset-in-data":
+		// DATA is accepted; after a.Code bytes of content the server resets the connection: from then on every
+		// write of the client fails (connection reset by peer)
+		code, text := s.defaultReply(verb)
+		s.sendReply(code, text)
+		s.track(verb, code)
+		s.resetAfter = a.Code + 1
+		return code
 	case "deaf":
 		// the well-behaved reply, then the server neither reads nor writes any more
 		code, text := s.defaultReply(verb)
@@ -228,6 +238,11 @@ func (s *RefServer) feed(p []byte) {
 				end, skip = 0, 3
 			} else if i := bytes.Index(buf, []byte("\r\n.\r\n")); i >= 0 {
 				end, skip = i+2, 3
+			}
+			if s.resetAfter > 0 && len(s.dataBuf)+len(buf) >= s.resetAfter {
+				s.closed, s.reset = true, true
+				s.Events = append(s.Events, Event{Kind: "drop", Pos: s.pos})
+				return
 			}
 			if end < 0 {
 				return
@@ -434,6 +449,12 @@ func (c *ScriptConn) Write(p []byte) (int, error) {
 	c.mu.Unlock()
 	if raw != nil {
 		return raw.Write(p)
+	}
+	c.srv.mu.Lock()
+	wasReset := c.srv.reset
+	c.srv.mu.Unlock()
+	if wasReset {
+		return 0, &net.OpError{Op: "write", Net: "tcp", Err: errors.New("connection reset by peer")}
 	}
 	c.srv.feed(p)
 	c.srv.mu.Lock()
